@@ -70,7 +70,7 @@ func verifH_C08_header_directions() {
 	verifReach("end")
 }
 
-//verif:harness id=C08 tier=quick,thorough witness=end,accepted,rejected bounds="response media type keys carrying parameters: declared content = non-empty subsets of {'text/plain; v=2', 'text/plain', 'text/*'} each with its own symbolic maxLength x response Content-Type in {'text/plain; v=2' (the exact key), 'text/plain', 'text/plain;v=2' (another spelling), 'text/plain; charset=utf-8; v=2' (two parameters), 'text/html', 'image/png'} x body of 1-2 ASCII bytes: the entry is chosen by exact string, then bare type, then type/*; its schema decides, and a content type no entry covers is rejected"
+//verif:harness id=C08 tier=quick,thorough witness=end,accepted,rejected bounds="response media type keys carrying parameters: declared content = non-empty subsets of {'text/plain; v=2', 'text/plain', 'text/*'} each with its own symbolic maxLength x response Content-Type in {'text/plain; v=2' (the exact key), 'text/plain', 'text/plain;v=2' (another spelling), 'text/plain; charset=utf-8; v=2' (two parameters), 'text/html', 'image/png', 'Text/PLAIN' (case-insensitive), 'text/plain ; v=2' (white space before the semicolon)} x body of 1-2 ASCII bytes: the entry is chosen by exact string, then bare type, then type/*; its schema decides, and a content type no entry covers is rejected"
 func verifH_C08_paramkey() {
 	keys := []string{"text/plain; v=2", "text/plain", "text/*"}
 	lens := []uint64{verifNondetUint64("lenExact"), verifNondetUint64("lenBare"), verifNondetUint64("lenWild")}
@@ -85,8 +85,8 @@ func verifH_C08_paramkey() {
 	resps := openapi3.NewResponsesWithCapacity(1)
 	resps.Set("200", &openapi3.ResponseRef{Value: &openapi3.Response{Description: &d, Content: content}})
 	op := &openapi3.Operation{Responses: resps}
-	cti := verifChoose("ct", 6)
-	ct := []string{"text/plain; v=2", "text/plain", "text/plain;v=2", "text/plain; charset=utf-8; v=2", "text/html", "image/png"}[cti]
+	cti := verifChoose("ct", 8)
+	ct := []string{"text/plain; v=2", "text/plain", "text/plain;v=2", "text/plain; charset=utf-8; v=2", "text/html", "image/png", "Text/PLAIN", "text/plain ; v=2"}[cti]
 	text := verifLeaf("b", 2, "")
 	in := verifRespInput(op, "GET", 200, http.Header{"Content-Type": []string{ct}}, []byte(text), &Options{})
 	// text/html has no registered decoder: a plain-text one for the harness' sake
@@ -96,9 +96,9 @@ func verifH_C08_paramkey() {
 	switch {
 	case cti == 0 && subset&1 != 0:
 		chosen = 0
-	case cti <= 3 && subset&2 != 0:
+	case (cti <= 3 || cti >= 6) && subset&2 != 0:
 		chosen = 1
-	case cti <= 4 && subset&4 != 0:
+	case (cti <= 4 || cti >= 6) && subset&4 != 0:
 		chosen = 2
 	}
 	want := chosen >= 0 && uint64(len(text)) <= lens[chosen]
